@@ -245,6 +245,11 @@ func fieldOfBase(v ssa.Value, base ssa.Value, depth int) (int, ssa.Value, bool) 
 	switch x := v.(type) {
 	case *ssa.UnOp:
 		return fieldOfBase(x.X, base, depth+1)
+	case *ssa.MakeInterface:
+		// the member handed on as a value of the node interface
+		return fieldOfBase(x.X, base, depth+1)
+	case *ssa.ChangeInterface:
+		return fieldOfBase(x.X, base, depth+1)
 	case *ssa.IndexAddr:
 		return fieldOfBase(x.X, base, depth+1)
 	case *ssa.Index:
